@@ -1141,6 +1141,10 @@ func (p *Printer) stmt(s *Stmt) {
 			p.pendingHdocs = append(p.pendingHdocs, r)
 		}
 	}
+	// Any semicolon or ampersand written so far belongs to a statement nested
+	// inside this one, such as in a block or a command substitution,
+	// and does not terminate this statement.
+	p.wroteSemi = false
 	sep := s.Semicolon.IsValid() && s.Semicolon.Line() > p.line && !p.singleLine
 	if sep || s.Background || s.Coprocess || s.Disown {
 		if sep {
